@@ -2,6 +2,7 @@ import PdshVerif.Base.Hex
 import PdshVerif.Pcp.Spec
 import PdshVerif.Pcp.Session
 import PdshVerif.Pcp.Links
+import PdshVerif.Pcp.Statics
 import Driver.Util
 
 /-! line protocol of the `pcp` engine (C11, C12): the receiver model `sink`, the sender model `send`,
@@ -18,6 +19,8 @@ the command-line construction and the two specifications, driven by checks/c11.p
     spec12 DESTPATH PATH...
     cmdf   PROG R P NENT DEST            cmdr PROG R P HOST FILE...
     norm   CWD STRING                    (lexical normal form of a path string)
+    statics ERRFPSHARED                  (Pcp/Statics.lean: the static objects of pcp_server.c the model accounts for, the
+                                         process-wide libc calls it does not cover, and those it does)
 
   FSENTRY   = <path>:<d|f>:<mode octal>:<mtime>:<content>     path = hex of "a/b/c" ("-" = root)
   mtime     = ? | <sec> | <sec>.<usec>          content = - | h<hex> | g<seed>.<len>
@@ -328,6 +331,9 @@ def handle (line : String) : String :=
           files.foldr (fun w acc => acc.bind fun l => (Hex.decode w).map (· :: l)) (some []) with
     | some prog, some host, some files => Hex.encode (rpdcpCmd prog (flag r) (flag p) files host)
     | _, _, _ => "bad-op"
+  | ["statics", e] =>
+    s!"defs={commaJoin ((serverStatics (flag e)).map (·.1))} forbidden={commaJoin processWideCalls} " ++
+      s!"modelled={commaJoin modelledProcessWideCalls}"
   | ["norm", cwd, s] =>
     match pathOfHex cwd, Hex.decode s with
     | some cwd, some s => hexOfPath (lexNorm cwd s)
